@@ -195,6 +195,35 @@ def oracle_case(cid, c, out):
     return fails, st
 
 
+M0_SIGNATURE = ("kvStoreSM.ApplyRaftRequest conflict pre-check skipped when isReplaying; non-syncer-only receiver; "
+                "restart re-applies entries ignored as conflicting")
+
+
+def oracle_m0(cases, impl):
+    """Receiver NOT in syncer-only mode (class m0, outside the model): a restart must reproduce data and positions."""
+    fails = []
+    for cid, c in cases.items():
+        out = impl.get(cid)
+        if out is None:
+            continue
+        ops = [o for o in c[3].split() if not o.startswith("Q:")]
+        obs = [o for o in out.split(" / ") if not o.startswith("SRC ") and not o.startswith("END ")]
+        prev = None
+        for op, o in zip(ops, obs):
+            r = o.split(";")
+            if len(r) != 3:
+                break
+            cur = (r[1], r[2])
+            if op.startswith("R:") and prev is not None and cur != prev:
+                fails.append(dict(name="m0-" + cid, signature=M0_SIGNATURE,
+                                  case=dict(cases_tsv=["\t".join([cid] + c)], impl=out, before=prev, after=cur),
+                                  what="restart changed the replica state on a non-syncer-only receiver: %s -> %s "
+                                       "(entries ignored live by the conflict pre-check are applied by the replay)" % (prev, cur)))
+                break
+            prev = cur
+    return fails
+
+
 def oracle(cases, impl):
     fails = []
     hist = {}
@@ -281,6 +310,7 @@ def run(ctx):
             runs.append(dict(sub="fresh-pebble-live", n=0, nb=40, ne=20, engines="pebble"))
 
     all_mism, all_fail, total, evals, hist_all, samples, distinct = [], [], 0, 0, {}, [], set()
+    m0_fail = []
     for r in runs:
         d, err = run_impl(ctx, ctx.seed, r.get("n", 0), r["sub"], replay_file=r.get("replay"),
                           engines=r.get("engines", "mem"), nb=r.get("nb", 0), ne=r.get("ne", 0))
@@ -305,6 +335,12 @@ def run(ctx):
         ids = list(cases.keys())
         for cid in ids[:2]:
             samples.append(dict(case=cases[cid], impl=(impl.get(cid) or "")[-600:]))
+        m0c = os.path.join(d, "cases_m0.tsv")
+        if os.path.exists(m0c) and os.path.getsize(m0c) > 0:
+            c0 = parse_cases(m0c)
+            i0, _ = vlib.read_out(os.path.join(d, "impl_m0.out"))
+            m0_fail += oracle_m0(c0, i0)
+            hist_all["class_m0"] = hist_all.get("class_m0", 0) + len(c0)
     evals = hist_all.get("ops", 0)
 
     def search():
@@ -321,6 +357,9 @@ def run(ctx):
     vlib.standard_verdict(ctx, proofs_ok, all_mism, all_fail, search_fn=search,
                           corr_name="Sync/Model.v vs node.ProposeRawAsyncFromSyncer / KVNode.applyEntries+applyEntry / "
                                     "isAlreadyApplied / postprocessRemoteApply / GetSnapshot / RestoreFromSnapshot")
+    # class m0 is reported on its own so that its (known) finding never hides a broken proof or correspondence
+    for f in m0_fail[:5]:
+        ctx.report_violation(f["name"], dict(case=f["case"], kind="failing-input"), signature=f["signature"], what=f["what"])
     ctx.finish(dict(
         traces_validated_against_impl=total,
         evaluations=evals,
